@@ -1,5 +1,6 @@
 import EaselModel.WorkQueue.Lemmas
 import EaselModel.Dsqdata.CodecLemmas
+import EaselModel.Threads.Lemmas
 /-! # C12 — property theorems (statements + glue only; lemmas live in WorkQueue/*.lean, Dsqdata/*.lean)
 
 Work queue (`esl_workqueue.c`): every theorem is about *all* states reachable from `esl_workqueue_Create(size)` by
@@ -142,5 +143,53 @@ example : (∀ x ∈ [0, 1, 2, 3, 15, 30, 0, (7 : UInt8)], x ≤ 30) := by decid
 example : unpack2 (pack2 [0, 1, 2, 3, 15, 30, 0, 7]) = some ([0, 1, 2, 3, 15, 30, 0, 7], 2) := by decide +kernel
 /-- the hypothesis `≤ 30` is needed: code 31 is read back as the end marker -/
 example : unpack5 (pack5 [1, 31, 2]) = some ([1], 1) := by decide +kernel
+
+/-! ## esl_threads start rendezvous (`AddThread`, `WaitForStart`, `Started`), every schedule, any number of workers -/
+section threads
+open EaselModel.Threads
+
+/-- **Barrier.** No worker returns from `esl_threads_Started` before every created worker has arrived and the
+    master has given the go signal. -/
+theorem th_barrier {s : Threads.Sys} (h : Threads.Reachable s) (w : Nat) (hw : w ∈ s.passed) :
+    s.master = .released ∧ s.notStarted = [] := by
+  have i := Threads.reachable_inv h
+  have hr : s.master = .released := by
+    apply Classical.byContradiction; intro hn
+    have := (i.pre hn).2; rw [this] at hw; simp at hw
+  exact ⟨hr, (i.post hr).2⟩
+
+/-- until the release, `startThread` counts exactly the workers blocked at the gate; every worker is in one place -/
+theorem th_counter {s : Threads.Sys} (h : Threads.Reachable s) :
+    s.notStarted.length + s.wWait.length + s.passed.length = s.count ∧
+    (s.master ≠ .released → s.startThread = s.wWait.length) ∧ (s.master = .released → s.startThread = 0) :=
+  let i := Threads.reachable_inv h
+  ⟨i.part, fun hn => (i.pre hn).1, fun hr => (i.post hr).1⟩
+
+/-- **No lost wake-up (master).** A master asleep in `WaitForStart` without a broadcast since it went to sleep
+    implies some worker has not arrived yet (and will broadcast when it does). -/
+theorem th_no_lost_wakeup_master {s : Threads.Sys} (h : Threads.Reachable s) (hm : s.master = .waiting false) :
+    s.notStarted ≠ [] := by
+  have i := Threads.reachable_inv h
+  have hlt := i.nlwM hm
+  have hp := i.pre (by rw [hm]; simp)
+  have := i.part
+  intro hn; rw [hn, hp.2] at this; simp at this; omega
+
+/-- **No lost wake-up (workers)** and nobody waits forever: after the release every sleeping worker has been
+    signalled, and its wake step returns from `Started`; once all workers have arrived, the master's wake step
+    releases; a worker that has not arrived can always arrive. -/
+theorem th_progress {s : Threads.Sys} (h : Threads.Reachable s) :
+    (s.master = .released → ∀ w sg, (w, sg) ∈ s.wWait → sg = true ∧ ∃ s', Threads.step s (.workerWake w) = some s' ∧ w ∈ s'.passed) ∧
+    (∀ sg, s.master = .waiting sg → s.notStarted = [] → ∃ s', Threads.step s .masterWake = some s' ∧ s'.master = .released) ∧
+    (∀ w ∈ s.notStarted, (Threads.step s (.arrive w)).isSome) := by
+  have i := Threads.reachable_inv h
+  refine ⟨fun hr w sg hw => ⟨i.nlwW hr _ hw, Threads.wake_passes s i hr w sg hw⟩,
+          fun sg hm hn => Threads.master_releases s i sg hm hn, fun w hw => by simp [Threads.step, hw]⟩
+
+/-- non-vacuity: 3 workers, the first arrives before the last one is even created -/
+example : ∃ s, Threads.run Threads.Sys.create [.add, .add, .arrive 0, .add, .masterWait, .arrive 2, .workerWake 0, .arrive 1,
+      .masterWake, .workerWake 1, .workerWake 0] = some s ∧ s.passed = [0, 1] ∧ s.wWait = [(2, true)] ∧ s.master = .released := by
+  refine ⟨_, rfl, ?_, ?_, ?_⟩ <;> decide
+end threads
 
 end EaselModel.Props.C12
